@@ -93,7 +93,7 @@ Proof.
     cbn [flat_items flat_map app] in *.
     destruct fuel as [|f]; [lia|].
     apply layout_cons in Hlay as (Hsp & _ & Hrest).
-    exists (tl gs), (ln + nl_count (gap_hd gs))%Z.
+    exists (tl gs), (tline ln (gap_hd gs) LR).
     split; [|split; [exact Hrest|rewrite weave_length; cbn; lia]].
     rewrite weave_cons. cbn [parse_group].
     rewrite (required_tok (gap_hd gs) LR _ false ln Hsp I I). reflexivity.
@@ -110,7 +110,7 @@ Proof.
       rewrite weave_length in Hfuel. cbn [ltok_text length] in Hfuel.
       apply layout_cons in Hlay as (Hsp & _ & Hlay1).
       cbn [wf_tokb] in Hwt.
-      destruct (IH b ltac:(lia) Hwt (tl gs) (flat_items more ++ LR :: rest) (Some LL) f (ln + nl_count (gap_hd gs))%Z Hlay1 ltac:(lia))
+      destruct (IH b ltac:(lia) Hwt (tl gs) (flat_items more ++ LR :: rest) (Some LL) f (tline ln (gap_hd gs) LL) Hlay1 ltac:(lia))
         as (gs1 & ln1 & Hpg1 & Hlay2 & Hlen1).
       destruct (IH more ltac:(lia) Hwmore gs1 rest (Some LR) f ln1 Hlay2 ltac:(lia))
         as (gs2 & ln2 & Hpg2 & Hlay3 & Hlen2).
@@ -127,7 +127,7 @@ Proof.
       apply layout_cons in Hlay as (Hsp & _ & Hlay1);
       pose proof (boundary_from_layout lt _ _ Hlay1) as Hb;
       destruct (IH more ltac:(cbn [tok_size] in Hsize; lia) Hwmore (tl gs) rest (Some lt) f
-                   (ln + nl_count (gap_hd gs))%Z Hlay1 ltac:(lia)) as (gs2 & ln2 & Hpg2 & Hlay3 & Hlen2);
+                   (tline ln (gap_hd gs) lt) Hlay1 ltac:(lia)) as (gs2 & ln2 & Hpg2 & Hlay3 & Hlen2);
       exists gs2, ln2; (split; [|split; [exact Hlay3|rewrite weave_length; lia]]);
       rewrite weave_cons; cbn [parse_group];
       rewrite (required_tok (gap_hd gs) lt _ false ln Hsp Hwlt Hb); cbn [bind];
@@ -156,7 +156,7 @@ Proof.
     rewrite weave_length in Hfuel. cbn [ltok_text length] in Hfuel.
     apply layout_cons in Hlay as (Hsp & _ & Hlay1).
     destruct (parse_group_items (items_size g) g (le_n _) Hwg (tl gs) (flat_map flat_group more ++ rest)
-                (Some LL) fuel (ln + nl_count (gap_hd gs))%Z Hlay1 ltac:(lia))
+                (Some LL) fuel (tline ln (gap_hd gs) LL) Hlay1 ltac:(lia))
       as (gs1 & ln1 & Hpg & Hlay2 & Hlen1).
     destruct (IH Hwmore gs1 rest (Some LR) fuel ln1 Hlay2 ltac:(lia)) as (gs2 & prev2 & ln2 & Hpa & Hlay3 & Hlen2).
     exists gs2, prev2, ln2. split; [|split; [exact Hlay3|rewrite weave_length; lia]].
@@ -191,7 +191,7 @@ Proof.
   apply layout_cons in Hlay as (Hsp & _ & Hlay1).
   pose proof (boundary_from_layout (LName name) _ _ Hlay1) as Hb. cbn [boundary_ok] in Hb.
   destruct (parse_args_groups groups Hgroups (tl gs) rest (Some (LName name)) fuel
-              (ln + nl_count (gap_hd gs))%Z Hlay1 ltac:(lia)) as (gs2 & prev2 & ln2 & Hpa & Hlay3 & Hlen2).
+              (tline ln (gap_hd gs) (LName name)) Hlay1 ltac:(lia)) as (gs2 & prev2 & ln2 & Hpa & Hlay3 & Hlen2).
   exists gs2, prev2, ln2. split; [|split; [exact Hlay3|rewrite weave_length; lia]].
   rewrite weave_cons. unfold parse_command. cbn [ltok_text].
   rewrite (required_name (gap_hd gs) name _ ln Hsp Hname Hb). cbn [bind].
@@ -235,7 +235,7 @@ Theorem token_roundtrip : forall t, is_atom t = true -> wf_tokb t = true ->
   exists lt, flat_tok t = [lt] /\
     forall g r ln, forallb is_space g = true -> boundary_ok lt r ->
       required group_pats false (g ++ ltok_text lt ++ r) ln
-        = Ok ((pat_of lt, ltok_text lt), (r, (ln + nl_count g)%Z)) /\
+        = Ok ((pat_of lt, ltok_text lt), (r, (ln + nl_count g + nl_count (ltok_text lt))%Z)) /\
       literal (pat_of lt) (ltok_text lt) = Ok t.
 Proof.
   intros t Ha Hwf.
@@ -251,7 +251,8 @@ Theorem unknown_command_rejected : forall g name r,
   parse_text (g ++ name ++ r) = PyErr cls_token_required (1 + nl_count g)%Z.
 Proof.
   intros g name r Hg Hn Hr Har. unfold parse_text. cbn [parse_loop]. unfold parse_command.
-  rewrite (required_name g name r 1%Z Hg (wf_nameb_wf _ Hn) Hr). cbn [bind]. rewrite Har. reflexivity.
+  rewrite (required_name g name r 1%Z Hg (wf_nameb_wf _ Hn) Hr). cbn [bind]. rewrite Har.
+  unfold tline. cbn [ltok_text]. rewrite (nl_count_name name (proj2 (wf_nameb_wf _ Hn))), Z.add_0_r. reflexivity.
 Qed.
 
 Corollary layout_independent : forall p gs1 gs2, wf_programb p = true ->
